@@ -42,14 +42,14 @@ pub trait HasChildren: HasContext {
     fn insert_by_id(&self, value: Rc<XmlItem>, id: Option<usize>) -> error::Result<Rc<XmlItem>>;
 
     fn append(&self, value: Rc<XmlItem>) -> error::Result<Rc<XmlItem>> {
-        let id = self.last_child_or_self_id();
-        value.set_order_after(id);
-        self.insert_by_id(value, None)
+        let v = self.insert_by_id(value, None)?;
+        self.context().invalidate_order();
+        Ok(v)
     }
 
     fn delete(&self, id: usize) -> Option<Rc<XmlItem>> {
         if let Some(v) = self.delete_by_id(id) {
-            v.clear_order();
+            self.context().invalidate_order();
             Some(v)
         } else {
             None
@@ -67,10 +67,13 @@ pub trait HasChildren: HasContext {
 
     fn insert_before(&self, value: Rc<XmlItem>, id: usize) -> error::Result<Rc<XmlItem>> {
         self.child_index(id).ok_or(error::Error::OufOfIndex(id))?;
-        value
-            .set_order_before(id)
-            .ok_or(error::Error::OufOfIndex(id))?;
-        self.insert_by_id(value, Some(id))
+        if value.id() == id {
+            // already in place
+            return Ok(value);
+        }
+        let v = self.insert_by_id(value, Some(id))?;
+        self.context().invalidate_order();
+        Ok(v)
     }
 }
 
@@ -106,6 +109,7 @@ pub trait HasContext {
     }
 
     fn order(&self) -> usize {
+        self.context().refresh_order();
         let cache_version = self.context().info.borrow().order_version;
         let order_version = self.context().ordering.borrow().version;
         if cache_version < order_version {
@@ -739,9 +743,9 @@ impl XmlAttribute {
             self.values.borrow_mut().clear();
 
             for v in attr.borrow().values.borrow().as_slice() {
-                v.init_order_recursive();
                 v.set_parent_id(Some(self.id()));
             }
+            self.context().invalidate_order();
 
             self.values
                 .borrow_mut()
@@ -2352,8 +2356,8 @@ impl XmlElement {
 
     pub fn append_attribute(&mut self, attr: Rc<XmlItem>) {
         attr.set_parent_id(Some(self.id()));
-        attr.init_order_recursive();
         self.attributes.push(attr);
+        self.context.invalidate_order();
     }
 
     pub fn namespaces(&self) -> error::Result<Vec<XmlNode<XmlNamespace>>> {
@@ -2392,7 +2396,7 @@ impl XmlElement {
             self.attributes
                 .retain(|v| v.as_attribute().unwrap().borrow().local_name() != name);
             v.set_parent_id(None);
-            v.clear_order();
+            self.context.invalidate_order();
             Some(v)
         } else {
             None
@@ -2980,26 +2984,6 @@ impl XmlItem {
         }
     }
 
-    fn clear_order(&self) {
-        match self {
-            XmlItem::Attribute(v) => v.borrow().clear_order(),
-            XmlItem::CData(v) => v.borrow().clear_order(),
-            XmlItem::CharReference(v) => v.borrow().clear_order(),
-            XmlItem::Comment(v) => v.borrow().clear_order(),
-            XmlItem::DeclarationAttList(v) => v.borrow().clear_order(),
-            XmlItem::Document(v) => v.borrow().clear_order(),
-            XmlItem::DocumentType(v) => v.borrow().clear_order(),
-            XmlItem::Element(v) => v.borrow().clear_order(),
-            XmlItem::Entity(v) => v.borrow().clear_order(),
-            XmlItem::Namespace(v) => v.borrow().clear_order(),
-            XmlItem::Notation(v) => v.borrow().clear_order(),
-            XmlItem::PI(v) => v.borrow().clear_order(),
-            XmlItem::Text(v) => v.borrow().clear_order(),
-            XmlItem::Unexpanded(v) => v.borrow().clear_order(),
-            XmlItem::Unparsed(v) => v.borrow().entity().borrow().clear_order(),
-        }
-    }
-
     pub fn id(&self) -> usize {
         match self {
             XmlItem::Attribute(v) => v.borrow().id(),
@@ -3119,45 +3103,6 @@ impl XmlItem {
         }
     }
 
-    fn set_order_after(&self, id: usize) -> Option<usize> {
-        match self {
-            XmlItem::Attribute(v) => v.borrow().set_order_after(id),
-            XmlItem::CData(v) => v.borrow().set_order_after(id),
-            XmlItem::CharReference(v) => v.borrow().set_order_after(id),
-            XmlItem::Comment(v) => v.borrow().set_order_after(id),
-            XmlItem::DeclarationAttList(v) => v.borrow().set_order_after(id),
-            XmlItem::Document(v) => v.borrow().set_order_after(id),
-            XmlItem::DocumentType(v) => v.borrow().set_order_after(id),
-            XmlItem::Element(v) => v.borrow().set_order_after(id),
-            XmlItem::Entity(v) => v.borrow().set_order_after(id),
-            XmlItem::Namespace(v) => v.borrow().set_order_after(id),
-            XmlItem::Notation(v) => v.borrow().set_order_after(id),
-            XmlItem::PI(v) => v.borrow().set_order_after(id),
-            XmlItem::Text(v) => v.borrow().set_order_after(id),
-            XmlItem::Unexpanded(v) => v.borrow().set_order_after(id),
-            XmlItem::Unparsed(v) => v.borrow().entity().borrow().set_order_after(id),
-        }
-    }
-
-    fn set_order_before(&self, id: usize) -> Option<usize> {
-        match self {
-            XmlItem::Attribute(v) => v.borrow().set_order_before(id),
-            XmlItem::CData(v) => v.borrow().set_order_before(id),
-            XmlItem::CharReference(v) => v.borrow().set_order_before(id),
-            XmlItem::Comment(v) => v.borrow().set_order_before(id),
-            XmlItem::DeclarationAttList(v) => v.borrow().set_order_before(id),
-            XmlItem::Document(v) => v.borrow().set_order_before(id),
-            XmlItem::DocumentType(v) => v.borrow().set_order_before(id),
-            XmlItem::Element(v) => v.borrow().set_order_before(id),
-            XmlItem::Entity(v) => v.borrow().set_order_before(id),
-            XmlItem::Namespace(v) => v.borrow().set_order_before(id),
-            XmlItem::Notation(v) => v.borrow().set_order_before(id),
-            XmlItem::PI(v) => v.borrow().set_order_before(id),
-            XmlItem::Text(v) => v.borrow().set_order_before(id),
-            XmlItem::Unexpanded(v) => v.borrow().set_order_before(id),
-            XmlItem::Unparsed(v) => v.borrow().entity().borrow().set_order_before(id),
-        }
-    }
 }
 
 // -----------------------------------------------------------------------------------------------
@@ -4074,6 +4019,29 @@ impl Context {
         self.text_expanded
     }
 
+    /// The tree changed: document-order keys are recomputed on the next `order()`.
+    fn invalidate_order(&self) {
+        self.ordering.borrow_mut().dirty = true;
+    }
+
+    /// Number the nodes attached to the document in document order (element, namespace
+    /// declarations, attributes, children), exactly as a fresh parse does.  Nodes that are
+    /// not attached have no key (0).
+    fn refresh_order(&self) {
+        if !self.ordering.borrow().dirty {
+            return;
+        }
+
+        {
+            let mut ordering = self.ordering.borrow_mut();
+            ordering.order.clear();
+            ordering.version += 1;
+            ordering.dirty = false;
+        }
+
+        self.document().borrow().init_order_recursive();
+    }
+
     fn next(&self) -> Context {
         let info = singleton(ContextInfo::from(self.idm.borrow_mut().next()));
 
@@ -4215,6 +4183,7 @@ impl fmt::Debug for ContextInfo {
 struct DocumentOrder {
     order: Vec<Weak<RefCell<ContextInfo>>>,
     version: usize,
+    dirty: bool,
 }
 
 impl DocumentOrder {
